@@ -616,8 +616,8 @@ def selftest(ctx) -> None:
 
 
 def run(ctx) -> None:
-    n_calc = ctx.n(300, 12000)
-    n_cover = ctx.n(120, 4000)
+    n_calc = ctx.n(450, 8000)
+    n_cover = ctx.n(180, 3000)
     jobs = [("calc", n_calc)] * 10 + [("cover", n_cover)] * 6
     parallel(ctx, _shard, jobs)
     ctx.exhaustive = False
